@@ -12,6 +12,7 @@ DRIVER = os.path.join(LEAN_DIR, ".lake", "build", "bin", "dsdriver")
 GENDRIVER = os.path.join(LEAN_DIR, ".lake", "build", "bin", "gendriver")
 GENBDRIVER = os.path.join(LEAN_DIR, ".lake", "build", "bin", "genbdriver")
 GENMDRIVER = os.path.join(LEAN_DIR, ".lake", "build", "bin", "genmdriver")
+GENQDRIVER = os.path.join(LEAN_DIR, ".lake", "build", "bin", "genqdriver")
 # Ties: parts of the source that are TRANSLATED to Lean on every run (lean/Gen*, regenerated from the repository) and proved equal to the model
 # (lean/Tie*).  Each tie is its own lake library + audit file + driver, so a source change that breaks one translation only affects the
 # properties registered for that tie.
@@ -38,6 +39,18 @@ TIES = {
                         ("C16", ["DsProofs.TieM.TIEM_walk", "DsProofs.TieM.TIEM_column"]),
                         ("C06", ["DsProofs.TieM.TIEM_column"]),
                         ("C15", ["DsProofs.TieM.TIEM_walk"])]),
+    "utilelem": dict(translator="translate_util", targets=["GenU", "TieU"], audit="AuditTieU.lean", root="TieU", driver=None,
+                     modules=["GenU.Elem", "TieU.Properties"],
+                     what="SklearnModelAccuracy.elementwise_score / elementwise_null_score, SklearnModelRocAuc.elementwise_score (harness/translate_util.py -> lean/GenU/Elem.lean)",
+                     reg=[("C14", ["DsProofs.TieU.TIEU_acc_elem", "DsProofs.TieU.TIEU_acc_null", "DsProofs.TieU.TIEU_auc_elem", "DsProofs.TieU.TIEU_C14_acc",
+                                   "DsProofs.TieU.TIEU_C14_acc_null", "DsProofs.TieU.TIEU_C14_auc"])]),
+    "query": dict(translator="translate_query", targets=["GenQ", "TieQ", "genqdriver"], audit="AuditTieQ.lean", root="TieQ", driver=GENQDRIVER,
+                  modules=["GenQ.Query", "TieQ.Properties"],
+                  what="Provenance.query from the shape checks to the returned mask / indices (harness/translate_query.py -> lean/GenQ/Query.lean)",
+                  reg=[("C05", ["DsProofs.TieQ.TIEQ_mask", "DsProofs.TieQ.TIEQ_idx", "DsProofs.TieQ.TIEQ_C05", "DsProofs.TieQ.TIEQ_C05_idx"]),
+                       ("C03", ["DsProofs.TieQ.TIEQ_mask"]),
+                       ("C12", ["DsProofs.TieQ.TIEQ_mask"]),
+                       ("C19", ["DsProofs.TieQ.TIEQ_mask", "DsProofs.TieQ.TIEQ_idx"])]),
     "joint": dict(translator="translate_joint", targets=["GenJ", "TieJ"], audit="AuditTieJ.lean", root="TieJ", driver=None,
                   modules=["GenJ.Joint", "TieJ.Properties"],
                   what="JointUtility.null_score / mean_score / elementwise_score / elementwise_null_score / __call__ (harness/translate_joint.py -> lean/GenJ/Joint.lean)",
@@ -92,7 +105,7 @@ def build(targets=("Ds", "DsProofs", "dsdriver"), timeout=3000):
 
 def _closure():
     """Lean files of this project reachable from the build roots (Ds, DsProofs, Driver, Audit)"""
-    seen, todo = set(), ["Ds", "DsProofs", "Driver", "Audit", "Gen", "Tie", "GenDriver", "AuditTie", "GenB", "TieB", "GenBDriver", "AuditTieB", "GenJ", "TieJ", "AuditTieJ", "GenM", "TieM", "GenMDriver", "AuditTieM"]
+    seen, todo = set(), ["Ds", "DsProofs", "Driver", "Audit", "Gen", "Tie", "GenDriver", "AuditTie", "GenB", "TieB", "GenBDriver", "AuditTieB", "GenJ", "TieJ", "AuditTieJ", "GenM", "TieM", "GenMDriver", "AuditTieM", "GenU", "TieU", "AuditTieU", "GenQ", "TieQ", "GenQDriver", "AuditTieQ"]
     while todo:
         m = todo.pop()
         path = os.path.join(LEAN_DIR, m.replace(".", "/") + ".lean")
@@ -285,4 +298,10 @@ class GenBDriver(Driver):
 class GenMDriver(Driver):
     def __init__(self):
         self.p = subprocess.Popen([GENMDRIVER], stdin=subprocess.PIPE, stdout=subprocess.PIPE, text=True, bufsize=1)
+        self.n = 0
+
+
+class GenQDriver(Driver):
+    def __init__(self):
+        self.p = subprocess.Popen([GENQDRIVER], stdin=subprocess.PIPE, stdout=subprocess.PIPE, text=True, bufsize=1)
         self.n = 0
